@@ -288,7 +288,7 @@ def _tasks_for(pid, tier):
         glob = [36] if q else [36, 37]
         # 47-51: a notify registered after re-entry while the previous generation is being woken (known finding F17 lives here;
         # 50/51 make the re-entering thread block so that one preemption suffices)
-        renotify = ds("group", 1, [49, 50, 51], jobs=6) + ds("group", 1 if q else 2, [47, 48], jobs=6)
+        renotify = ds("group", 1, [49, 50, 51], jobs=6) + ds("group", 1 if q else 2, [47, 48], jobs=6) + ds("group", 1 if q else 2, [52, 53], jobs=6)   # 52/53: blocked re-entering thread, new-generation waiter
         if not q:
             renotify += ds("group", 2, [50, 51], jobs=8)
         return (renotify + ds("group", 3 if q else 4, pure, jobs=2) + ds("group", 2, two_q, jobs=6) +
